@@ -188,6 +188,9 @@ func (s *Sandbox) blobPut(ls *lua.LState) int {
 	if rdr == nil {
 		ls.ArgError(2, "blob content expected")
 	}
+	if s.dryRun {
+		return 0
+	}
 
 	dOut, err := s.rc.BlobPut(s.ctx, r.r, descriptor.Descriptor{Digest: d}, rdr)
 	if err != nil {
